@@ -67,8 +67,8 @@ Print Assumptions C08_binary_model_is_the_model.
     taken from the front and from the back of [num_rows] rows of [num_cols] cells) - no
     stride, no product that could overflow.  This is the oracle family 10 evaluates. *)
 Theorem C08_any_size_any_history :
-  forall (v : bview) cs, wf_view (view_of_b v) ->
-  exists it o s', bv_rows v = Ok it /\ bcalls (BRows it) cs = Ok (o, s') /\
+  forall dbg (v : bview) cs, wf_view (view_of_b v) ->
+  exists it o s', bv_rows v = Ok it /\ bcalls dbg (BRows it) cs = Ok (o, s') /\
     o = fst (BigIterSpec.ideal_calls (bvrows v) [bvcols v] false (0%N, 0%N) cs).
 Proof. exact big_rows_end_to_end. Qed.
 Print Assumptions C08_any_size_any_history.
